@@ -209,7 +209,7 @@ func WriteModule(spec *synth.Spec, dir string, o Options) error {
 	if err != nil {
 		return err
 	}
-	gomod := "module " + synth.Module + "\n\ngo 1.23.0\n\nrequire pgregory.net/rapid v1.3.0\n"
+	gomod := "module " + spec.ModulePath() + "\n\ngo 1.23.0\n\nrequire pgregory.net/rapid v1.3.0\n"
 	if o.NeedPQ {
 		gomod += "\nrequire github.com/lib/pq v0.0.0\nrequire verif v0.0.0\nreplace verif => /verif\nreplace github.com/lib/pq => /verif/engine/pq\nreplace github.com/benoitkugler/gomacro => /repo\n"
 	}
